@@ -285,7 +285,7 @@ PROPS["C04"] = {
     "bounds": {"events": 1, "reads_per_event": 1, "writes_per_event": 2},
     "outside": ["cross-goroutine races between close causes (C03/C05)"],
     "assumptions": ["ghost kernel contract", "pool contracts (C12)"],
-    "units": [dict(_LOOP_COMMON, name="loop-lifecycle", files=["harness/gnet/vloop_world.go", "harness/gnet/c04_lifecycle.go"], cfg={"vcfg": {"nodes": 1}})],
+    "units": [dict(_LOOP_COMMON, name="loop-lifecycle", files=["harness/gnet/vloop_world.go", "harness/gnet/c14_pick.go", "harness/gnet/c04_lifecycle.go"], cfg={"vcfg": {"nodes": 1}})],
 }
 
 PROPS["C02"] = {
